@@ -17,7 +17,7 @@ open Discret.Room
 inductive Reachable (df : Defects) : Site → Prop
   | empty : Reachable df Site.empty
   | mutate {s s' : Site} {caller : Key} {n : Nat} {m : MutSpec} :
-      Reachable df s → s.mutate caller n m = .ok s' → Reachable df s'
+      Reachable df s → s.mutate df caller n m = .ok s' → Reachable df s'
   | restart {s s' : Site} : Reachable df s → s.restart df = .ok s' → Reachable df s'
   | importRoom {s s' : Site} {cand : RoomRow} :
       Reachable df s → s.importRoom df cand = .ok s' → Reachable df s'
@@ -197,8 +197,8 @@ def m2 : MutSpec :=
   { rid := 0, isNew := false, date := 3, admins := [],
     groups := [{ gid := 0, isNew := false, rights := [(1, true, false)], users := [(4, false)], userAdmins := [] }] }
 
-def site1 : Site := match Site.empty.mutate 1 0 m1 with | .ok s => s | .error _ => Site.empty
-def site2 : Site := match site1.mutate 1 (0 + m1.size) m2 with | .ok s => s | .error _ => Site.empty
+def site1 : Site := match Site.empty.mutate Defects.none 1 0 m1 with | .ok s => s | .error _ => Site.empty
+def site2 : Site := match site1.mutate Defects.none 1 (0 + m1.size) m2 with | .ok s => s | .error _ => Site.empty
 
 def canAt (s : Site) (k : Key) (e : Ent) (d : Int) (rt : RightType) : Bool :=
   match s.getMem 0 with
@@ -217,8 +217,8 @@ def importedSite (df : Defects) (src : Site) : Site :=
 
 -- a reachable instance with a two-date history; user 4 can write at 2, not at 3
 example : Reachable Defects.none site2 := by
-  obtain ⟨a, ha⟩ := ok_of_toBool (x := Site.empty.mutate 1 0 m1) (by decide)
-  obtain ⟨b, hb⟩ := ok_of_toBool (x := site1.mutate 1 (0 + m1.size) m2) (by decide)
+  obtain ⟨a, ha⟩ := ok_of_toBool (x := Site.empty.mutate Defects.none 1 0 m1) (by decide)
+  obtain ⟨b, hb⟩ := ok_of_toBool (x := site1.mutate Defects.none 1 (0 + m1.size) m2) (by decide)
   have h1 : site1 = a := by simp only [site1, ha]
   have h2 : site2 = b := by simp only [site2, hb]
   rw [h2]
@@ -268,7 +268,7 @@ theorem C10_breaks_reloadRawRights :
 
 /-- a room with two admins and no group -/
 def m3 : MutSpec := { rid := 0, isNew := true, date := 1, admins := [(1, true), (2, true)], groups := [] }
-def site3 : Site := match Site.empty.mutate 1 0 m3 with | .ok s => s | .error _ => Site.empty
+def site3 : Site := match Site.empty.mutate Defects.none 1 0 m3 with | .ok s => s | .error _ => Site.empty
 
 def adminAtSite (s : Site) (k : Key) (d : Int) : Bool :=
   match s.getMem 0 with
@@ -287,7 +287,7 @@ theorem C10_breaks_reloadDropsIncompleteRoom :
 def m4 : MutSpec :=
   { rid := 0, isNew := false, date := 2, admins := [],
     groups := [{ gid := 1, isNew := true, rights := [(0, true, false)], users := [(4, true)], userAdmins := [] }] }
-def site4 : Site := match site3.mutate 1 (0 + m3.size) m4 with | .ok s => s | .error _ => Site.empty
+def site4 : Site := match site3.mutate Defects.none 1 (0 + m3.size) m4 with | .ok s => s | .error _ => Site.empty
 def peer3 (df : Defects) : Site := match imported df site3 Site.empty with | .ok s => s | .error _ => Site.empty
 
 /-- **C10_breaks_newGroupUsersRule (#33).** A peer that already holds the room refuses the honest new
@@ -325,7 +325,7 @@ def m5 : MutSpec :=
   { rid := 0, isNew := true, date := 1, admins := [(1, true), (2, false)],
     groups := [{ gid := 0, isNew := true, rights := [(1, true, true), (0, true, false)],
                  users := [(4, true), (5, false)], userAdmins := [(1, true)] }] }
-def site5 : Site := match Site.empty.mutate 1 0 m5 with | .ok s => s | .error _ => Site.empty
+def site5 : Site := match Site.empty.mutate Defects.none 1 0 m5 with | .ok s => s | .error _ => Site.empty
 
 /-- what `site5` stores -/
 def rows5 : RoomRow :=
@@ -347,32 +347,36 @@ example : site5.stored = [rows5] ∧ (∀ rr ∈ site5.stored, ReloadGuard rr) :
   constructor <;> decide
 
 example : canAt site5 4 1 1 .mutateAll = true ∧
-    canAt (restarted ⟨true, true, true, true, false⟩ site5) 4 1 1 .mutateAll = true ∧
+    canAt (restarted ⟨true, true, true, true, false, true⟩ site5) 4 1 1 .mutateAll = true ∧
     canAt site5 5 1 1 .mutateSelf = false ∧
-    canAt (restarted ⟨true, true, true, true, false⟩ site5) 5 1 1 .mutateSelf = false := by
+    canAt (restarted ⟨true, true, true, true, false, true⟩ site5) 5 1 1 .mutateSelf = false := by
   decide
 
 /-- a room created by key 1 with an empty group and NO admin entry -/
 def m7 : MutSpec :=
   { rid := 0, isNew := true, date := 1, admins := [],
     groups := [{ gid := 0, isNew := true, rights := [], users := [], userAdmins := [] }] }
-def site7 : Site := match Site.empty.mutate 1 0 m7 with | .ok s => s | .error _ => Site.empty
+def site7 : Site :=
+  match Site.empty.mutate { Defects.none with groupCreationUnchecked := true } 1 0 m7 with
+  | .ok s => s | .error _ => Site.empty
 
 /-- **C10_breaks_groupCreatedByNonAdmin.** The live path lets a creator add an empty group without being admin
     of the room (nothing in `validate_authorisation_mutation` asks for it); every importer refuses the group row
-    because its author is not admin (`prepare_new_room`). No switch of `Defects` removes this: the two rules
-    simply differ — which is why C10 states "means the same WHEN accepted" and proves acceptance only for reload.
+    because its author is not admin (`prepare_new_room`): the two rules differ. With the switch off the local
+    rule asks what every importer asks (the creator of a group is admin of the room as it stands after the
+    mutation) and the creation is refused locally.
     (Replayed on the real code: corpus/C10/group-created-by-non-admin.ops.) -/
 theorem C10_breaks_groupCreatedByNonAdmin :
-    (Site.empty.mutate 1 0 m7).toBool = true ∧
-    (imported Defects.none site7 Site.empty).toBool = false := by decide
+    (Site.empty.mutate { Defects.none with groupCreationUnchecked := true } 1 0 m7).toBool = true ∧
+    (imported Defects.none site7 Site.empty).toBool = false ∧
+    (Site.empty.mutate Defects.none 1 0 m7).toBool = false := by decide
 
 /-- concurrent edits: instance A (key 1) and instance B (key 2, which imported the room) both make key 5 admin,
     A at date 1, B at date 4; A then merges B's version -/
 def m8a : MutSpec := { rid := 0, isNew := false, date := 1, admins := [(5, true)], groups := [] }
 def m8b : MutSpec := { rid := 0, isNew := false, date := 4, admins := [(5, true)], groups := [] }
-def siteA8 : Site := match site1.mutate 1 100 m8a with | .ok s => s | .error _ => Site.empty
-def siteB8 : Site := match (importedSite Defects.none site1).mutate 2 200 m8b with | .ok s => s | .error _ => Site.empty
+def siteA8 : Site := match site1.mutate Defects.none 1 100 m8a with | .ok s => s | .error _ => Site.empty
+def siteB8 : Site := match (importedSite Defects.none site1).mutate Defects.none 2 200 m8b with | .ok s => s | .error _ => Site.empty
 def siteA8' : Site := match imported Defects.none siteB8 siteA8 with | .ok s => s | .error _ => Site.empty
 
 /-- **C10_breaks_mergeOlderEntry.** `prepare_room_with_history` appends the new admin entries to the importer's
@@ -389,8 +393,8 @@ def m9b : MutSpec := { rid := 0, isNew := false, date := 2, admins := [(1, false
 def m9a : MutSpec :=
   { rid := 0, isNew := false, date := 3, admins := [],
     groups := [{ gid := 0, isNew := false, rights := [(2, true, true)], users := [], userAdmins := [] }] }
-def siteB9 : Site := match (importedSite Defects.none site1).mutate 2 200 m9b with | .ok s => s | .error _ => Site.empty
-def siteA9 : Site := match site1.mutate 1 100 m9a with | .ok s => s | .error _ => Site.empty
+def siteB9 : Site := match (importedSite Defects.none site1).mutate Defects.none 2 200 m9b with | .ok s => s | .error _ => Site.empty
+def siteA9 : Site := match site1.mutate Defects.none 1 100 m9a with | .ok s => s | .error _ => Site.empty
 def siteA9' : Site := match imported Defects.none siteB9 siteA9 with | .ok s => s | .error _ => Site.empty
 
 /-- **C10_breaks_authorDisabledConcurrently.** `prepare_room_with_history` checks the NEW entries of a candidate
@@ -406,7 +410,7 @@ theorem C10_breaks_authorDisabledConcurrently :
 
 /-- at date 1 (the date of the creation) key 1 disables admin 2: two entries of key 2 with one date -/
 def m6 : MutSpec := { rid := 0, isNew := false, date := 1, admins := [(2, false)], groups := [] }
-def site6 : Site := match site1.mutate 1 (0 + m1.size) m6 with | .ok s => s | .error _ => Site.empty
+def site6 : Site := match site1.mutate Defects.none 1 (0 + m1.size) m6 with | .ok s => s | .error _ => Site.empty
 
 /-- **C10_breaks_sameDateEntries.** The guard `TiesHarmless` is needed even for the intended behaviour.
     Two entries of one key with the same date and different flags: the live instance takes the last
